@@ -134,5 +134,6 @@ uint64_t ioRand(uint64_t lo, uint64_t hi);
 bool ioChance(double p);
 void applyClockJump(int64_t by);
 void countEvent();
+uint64_t wallUs(); // simulated wall clock (includes clock jumps)
 
 } // namespace vsim
